@@ -326,14 +326,6 @@ def r13_3(ctx):
         for s in stores:
             ctx.check(norm(s.slice) == text, f.fq, short(s), f"{f.module.relpath}:{s.lineno}", "store key is the argument itself",
                       f"cache is stored under `{norm(s.slice)}`, not under the measured string `{text}`")
-            # stored value = returned value on the miss path
-            asg = f.module.parent_of.get(s)
-            if isinstance(asg, ast.Assign):
-                val = norm(asg.value)
-                rets = [r for r in walk_local(f.node) if isinstance(r, ast.Return) and r.value is not None]
-                miss_ret = rets[-1]
-                ctx.check(norm(miss_ret.value) == val, f.fq, f"{norm(asg)} / {norm(miss_ret)}", f"{f.module.relpath}:{asg.lineno}",
-                          "value stored is the value returned on a miss", f"cache stores `{val}` but the miss path returns `{norm(miss_ret.value)}`")
         # the parameter is never rebound before use as key
         for node in g.stmt_nodes():
             if node.kind in ("stmt", "test") and node.stmt is not None:
@@ -342,33 +334,69 @@ def r13_3(ctx):
                         defs = rd.get(node.id, {}).get(text, set())
                         if defs and defs != {g.entry}:
                             ctx.violation(f.fq, f"{text} rebound", f"{f.module.relpath}:{node.lineno}", f"`{text}` is rebound before being used as cache key / measured")
-        # hit path returns the looked-up value unmodified
-        hit_ok = False
-        for n in walk_local(f.node):
-            if isinstance(n, ast.If) and n.body and isinstance(n.body[0], ast.Return):
-                rv = n.body[0].value
-                if isinstance(rv, ast.Name) and rv.id in norm(n.test):
-                    # rv defined from lookup
-                    for a in walk_local(f.node):
-                        if isinstance(a, ast.Assign) and len(a.targets) == 1 and norm(a.targets[0]) == rv.id and a.value in lookups:
-                            hit_ok = True
-        ctx.check(hit_ok, f.fq, "hit path", f.where, "a hit returns the stored value unmodified", "the hit path does not return the looked-up value unmodified")
+        # decided per control-flow path (helpers and temporaries inlined, path-local values resolved)
+        from ..yieldpaths import Enumerator, Unsupported, resolve
+        from .common import inline_helpers_in_function
+        try:
+            P = [resolve(p_) for p_ in Enumerator(inline_helpers_in_function(f)).run()]
+        except Unsupported as u:
+            raise AnalysisError(f"cell_len: statement outside the path normal form ({u})")
+        LOOK = (f"{cache}.get({text}, None)", f"{cache}.get({text})", f"{cache}[{text}]")
+
+        def is_char_sum(txt):
+            try:
+                v = ast.parse(txt, mode="eval").body
+            except SyntaxError:
+                return False
+            if not (isinstance(v, ast.Call) and norm(v.func) == "sum" and len(v.args) == 1 and not v.keywords):
+                return False
+            a = v.args[0]
+            if isinstance(a, ast.Call) and norm(a.func) == "map" and len(a.args) == 2 and norm(a.args[0]) == "get_character_cell_size" and norm(a.args[1]) == text:
+                return True
+            if isinstance(a, (ast.GeneratorExp, ast.ListComp)) and len(a.generators) == 1 and not a.generators[0].ifs and norm(a.generators[0].iter) == text:
+                el = a.elt
+                return isinstance(el, ast.Call) and norm(el.func) == "get_character_cell_size" and len(el.args) == 1 and norm(el.args[0]) == norm(a.generators[0].target)
+            return False
+        hit_ok = miss_ok = store_ok = True
+        n_hit = n_miss = n_store = 0
+        for p_ in P:
+            facts = {e[1]: e[2] for e in p_ if e[0] == "cond"}
+            rets = [e for e in p_ if e[0] == "return" and e[1] is not None]
+            if len(rets) != 1:
+                hit_ok = miss_ok = False
+                continue
+            rv = rets[0][1]
+            is_hit = any(facts.get(f"{l} is None") is False for l in LOOK) or facts.get(f"{text} in {cache}") is True
+            is_miss = any(facts.get(f"{l} is None") is True for l in LOOK) or facts.get(f"{text} in {cache}") is False
+            if is_hit:
+                n_hit += 1
+                hit_ok = hit_ok and rv in LOOK
+            elif is_miss:
+                n_miss += 1
+                miss_ok = miss_ok and is_char_sum(rv)
+            else:
+                hit_ok = False
+            for e in p_:
+                if e[0] == "set" and e[1] == f"{cache}[{text}]":
+                    n_store += 1
+                    store_ok = store_ok and e[2] == rv and is_miss
+        ctx.check(hit_ok and n_hit >= 1, f.fq, "hit path", f.where, "a hit returns the stored value unmodified", "the hit path does not return the looked-up value unmodified")
+        ctx.check(store_ok and n_store >= 1, f.fq, "store on miss", f.where, "value stored is the value returned on a miss", "cache stores a value other than the one the miss path returns (or stores on a hit)")
+        ctx.check(miss_ok and n_miss >= 1, f.fq, "sum(get_character_cell_size(c) for c in text)", f.where, "width of a string = sum of its characters' widths over the whole argument",
+                  "cell_len no longer sums get_character_cell_size over every character of its argument")
     else:
         ctx.note("cell_len has no cache parameter")
-    # the measured sum: sum(size(c) for c in text) over the whole argument
-    ok = False
-    aliases = alias_map(f.node)
-    for n in walk_local(f.node):
-        if isinstance(n, ast.Call) and call_name(n) == "sum" and n.args and isinstance(n.args[0], ast.GeneratorExp):
-            ge = n.args[0]
-            if len(ge.generators) == 1 and not ge.generators[0].ifs and norm(ge.generators[0].iter) == text:
-                el = ge.elt
-                if isinstance(el, ast.Call) and len(el.args) == 1 and norm(el.args[0]) == norm(ge.generators[0].target):
-                    callee = norm(expand_alias(el.func, aliases))
-                    if callee == "get_character_cell_size":
+        ok = False
+        aliases = alias_map(f.node)
+        for n in walk_local(f.node):
+            if isinstance(n, ast.Call) and call_name(n) == "sum" and n.args and isinstance(n.args[0], ast.GeneratorExp):
+                ge = n.args[0]
+                if len(ge.generators) == 1 and not ge.generators[0].ifs and norm(ge.generators[0].iter) == text:
+                    el = ge.elt
+                    if isinstance(el, ast.Call) and len(el.args) == 1 and norm(el.args[0]) == norm(ge.generators[0].target) and norm(expand_alias(el.func, aliases)) == "get_character_cell_size":
                         ok = True
-    ctx.check(ok, f.fq, "sum(get_character_cell_size(c) for c in text)", f.where, "width of a string = sum of its characters' widths over the whole argument",
-              "cell_len no longer sums get_character_cell_size over every character of its argument")
+        ctx.check(ok, f.fq, "sum(get_character_cell_size(c) for c in text)", f.where, "width of a string = sum of its characters' widths over the whole argument",
+                  "cell_len no longer sums get_character_cell_size over every character of its argument")
     # LRUCache
     lc = ctx.repo.cls("_lru_cache:LRUCache")
     gi = lc.method("__getitem__")
@@ -487,7 +515,7 @@ def r13_4(ctx):
                 others = sorted(repr(g.nodes[d]) for d in alldefs if d != g.entry)
                 ctx.violation(f.fq, construct, where,
                               f"{kind} uses `{st.id}`, which on some path is not the function's `style` parameter but was rebound by: {others} - padding gets the wrong style")
-    ctx.floor(total, 5, "padding sinks")
+    ctx.floor(total, 3, "padding sinks")
 
 
 def r13_5(ctx):
@@ -633,7 +661,7 @@ def r13_5(ctx):
             n_checked += 1
             ctx.check(ln is not None and norm(ln) == length_sp, sp.fq, short(call), f"{sp.module.relpath}:{call.lineno}", "each line cropped/padded to the requested `length`",
                       f"line adjusted to `{norm(ln) if ln is not None else None}`, not to `{length_sp}`")
-    ctx.floor(n_checked, 8, "pad/crop arithmetic sites")
+    ctx.floor(n_checked, 6, "pad/crop arithmetic sites")
     # Segment.cell_length: control segments measure 0, others cell_len(text)
     cl = ctx.repo.cls("segment:Segment").method("cell_length")
     if cl is None:
